@@ -250,3 +250,24 @@ def stack_size_cache_rule(rep, rid):
                             "does not re-read %s with init_%s_stack_size()" % (m, cls)))
             else:
                 rep.ok(rid, f, "%s re-reads %s with init_%s_stack_size() after merging the configuration sources" % (f.qname.rsplit("::", 1)[-1], m, cls))
+
+
+
+def unknown_helpers_are_not_violations(rep, rule_ids, allow=()):
+    """Several rules of a module read a function's statements in place and assume that the statements are all there.  pikafacts
+    reads helpers it has never seen (functions absent from known_functions.txt, lambdas called in place) into their callers, but an
+    extracted helper with several exits, or a lambda bound to a name, does not always splice back into the shape those rules know.
+    For the rules named here a finding inside a function whose body contains such spliced-in code is therefore reported as
+    analysis-broken (exit 2, 'this idiom is not decided'), never as a violation: the rule has lost its footing, the code need not
+    be wrong.  Functions without spliced-in helpers - all of today's tree - are judged as before."""
+    orig = rep.bad
+
+    def bad(rid, fn, loc, key, msg, path=None):
+        spliced = []
+        if rid in rule_ids and hasattr(fn, "raw"):
+            spliced = sorted(set(str(x.get("callee")) for x in (fn.raw.get("inlined") or [])) - set(allow))
+        if spliced:
+            raise AnalysisBroken("%s would report '%s' in %s, whose body contains helpers / in-place lambdas the analysis has not seen before (%s): not decided" % (
+                rid, key, getattr(fn, "qname", fn), ", ".join(spliced)[:200]))
+        return orig(rid, fn, loc, key, msg, path)
+    rep.bad = bad
